@@ -80,6 +80,9 @@ pub enum M {
     /// deep composites with an owned single-use leaf (C12)
     OwnDeepOpt,
     OwnDeepPoll,
+    OwnPollMulti,
+    /// std::process::Termination::report as a mocked method (mock-std)
+    TermReport,
 }
 
 #[derive(Clone, Copy, Debug, PartialEq, Eq)]
@@ -163,6 +166,8 @@ pub const ALL_M: &[M] = &[
     M::GpU16,
     M::OwnDeepOpt,
     M::OwnDeepPoll,
+    M::OwnPollMulti,
+    M::TermReport,
 ];
 
 impl M {
@@ -226,6 +231,8 @@ impl M {
             M::GpU16 => ("GenM", "gp", false, true, false, Recv::Ref, false),
             M::OwnDeepOpt => ("Own", "own_deep_opt", false, false, false, Recv::Ref, false),
             M::OwnDeepPoll => ("Own", "own_deep_poll", false, false, false, Recv::Ref, false),
+            M::OwnPollMulti => ("Own", "own_poll_multi", false, false, false, Recv::Ref, false),
+            M::TermReport => ("Termination", "report", false, false, false, Recv::Val, false),
         };
         MInfo {
             m: self,
@@ -400,6 +407,11 @@ pub enum Special {
     OwnDeepOpt { id: u32 },
     /// -> Poll<Result<&u32, Tracked>>: Ready(Err(owned)), single use
     OwnDeepPoll { id: u32 },
+    /// each_call(_).returns(Poll::Ready(Err(TrackedC))) with a multi-use quantifier
+    OwnPollMulti { quant: Quant, id: u32 },
+    /// TerminationMock::report.each_call(matching!()).returns(SUCCESS / FAILURE): report() hands out
+    /// the mocked code; the instance is verified when it is dropped at the end of report()
+    MockedReport { success: bool },
 }
 
 #[derive(Serialize, Deserialize, Clone, Copy, Debug, PartialEq, Eq, Hash)]
@@ -556,6 +568,7 @@ pub enum OwnKind {
     DeepOpt,
     /// -> Poll<Result<&u32, Tracked>>, single use
     DeepPoll,
+    PollMulti,
 }
 
 #[derive(Serialize, Deserialize, Clone, Copy, Debug, PartialEq, Eq, Hash)]
